@@ -4,7 +4,7 @@ from lib.coqgen import N, Z, b, hx, opt, lst, pair
 
 NAME = "denom"
 GO_PKG = "./denom"
-COQ_IMPORTS = "From IBC Require Import Lib.Bytes Lib.Dec Lib.CorrLib Denom.Ident Denom.Denom Denom.Transfer Corr.Denom."
+COQ_IMPORTS = "From IBC Require Import Lib.Bytes Lib.Dec Lib.CorrLib Denom.Ident Denom.Denom Denom.Transfer Denom.Authz Corr.Denom."
 CASE_TYPE = "Case"
 CHECK = "check"
 
@@ -327,6 +327,147 @@ def known_f5c(r):
     return not parses_back([(dp, dc)] + tr, base)
 
 
+# ---- C36 ---------------------------------------------------------------------------------------------------------
+
+SENT = (1 << 256) - 1
+
+
+def coins_term(cs):
+    return lst(cs, lambda dv: pair(hx(dv[0]), Z(0 if dv[1] == "nil" else dv[1])))
+
+
+def alloc_term(a):
+    return "(mkAlloc %s %s %s %s %s)" % (hx(a["port"]), hx(a["chan"]), coins_term(a["limit"]), lst(a["allow"], hx), lst(a["memos"], hx))
+
+
+def grant_term(g):
+    return lst(g, alloc_term)
+
+
+def req_term(q):
+    return "(mkReq %s %s %s %s %s %s)" % (hx(q["port"]), hx(q["chan"]), hx(q["denom"]), Z(q["amt"]), hx(q["receiver"]), hx(q["memo"]))
+
+
+def state_term(st):
+    return opt(st, lambda g: lst(g, lambda a: "(%s, %s, %s)" % (hx(a["port"]), hx(a["chan"]), coins_term(a["limit"]))))
+
+
+def enc_authz_valid(r):
+    return "AuthzValid %s %s %s" % (grant_term(r["in"]), b(r["out"]["ok"]), b(r["out"]["panic"]))
+
+
+def spec_authz_valid(r):
+    if r["out"]["panic"]:
+        return "TransferAuthorization.ValidateBasic panicked"
+    # independent reading of ValidateBasic's documented rules
+    g = r["in"]
+    ok = len(g) > 0
+    seen = set()
+    for a in g:
+        if a["chan"] in seen:
+            ok = False
+        seen.add(a["chan"])
+        lim = a["limit"]
+        dn = [H(d) for d, _ in lim]
+        if not lim or any(v == "nil" or int(v) <= 0 for _, v in lim) or dn != sorted(set(dn)) or any(RE_SDK.fullmatch(d) is None for d in dn):
+            ok = False
+        if not id_validator(H(a["port"]), 2, 128) or not id_validator(H(a["chan"]), 8, 64):
+            ok = False
+        if len(set(a["allow"])) != len(a["allow"]):
+            ok = False
+    if ok != r["out"]["ok"]:
+        return "ValidateBasic returned %s for a grant that the documented rules %s" % (r["out"]["ok"], "accept" if ok else "reject")
+
+
+def enc_authz_run(r):
+    obs = lst(r["out"], lambda o: "(%s, %s)" % (b(o["ok"]), state_term(o["state"])))
+    return "AuthzRun %s %s %s" % (grant_term(r["in"]["grant"]), lst(r["in"]["reqs"], req_term), obs)
+
+
+def enc_authz_exec(r):
+    rs = lst(r["in"]["reqs"], lambda q: "(%s, %s)" % (req_term(q), Z(q["spendable"])))
+    obs = lst(r["out"], lambda o: "(%s, %s, %s)" % (b(o["ok"]), state_term(o["state"]), Z(o["moved"])))
+    return "AuthzExec %s %s %s" % (grant_term(r["in"]["grant"]), rs, obs)
+
+
+def memo_allowed(memo, allowed):
+    if not allowed:
+        return memo.strip() == b""
+    if allowed == [b"*"]:
+        return True
+    return memo.strip() in [m.strip() for m in allowed]
+
+
+def spec_authz_seq(r):
+    """the property evaluated on what the implementation did along the whole request sequence"""
+    g0 = r["in"]["grant"]
+    limit0, rules = {}, {}
+    for a in g0:
+        k = (a["port"], a["chan"])
+        rules.setdefault(k, a)
+        for d, v in a["limit"]:
+            limit0.setdefault(k + (d,), int(v))
+    spent = {}
+    moved_total = {}
+    prev_state = g0
+    for n, (q, o) in enumerate(zip(r["in"]["reqs"], r["out"])):
+        if o.get("panic"):
+            return "request %d: Accept panicked" % n
+        k2 = (q["port"], q["chan"])
+        k3 = k2 + (q["denom"],)
+        amt = int(q["amt"])
+        l0 = limit0.get(k3, 0)
+        what = "request %d (%s %s over %s/%s to %s memo %s)" % (n, q["amt"], S(q["denom"]), S(q["port"]), S(q["chan"]), S(q["receiver"]), S(q["memo"]))
+        if o["ok"]:
+            a0 = rules.get(k2)
+            if a0 is None:
+                return what + " was accepted although the grant has no allocation for that port/channel"
+            if a0["allow"] and q["receiver"] not in a0["allow"]:
+                return what + " was accepted although the receiver is not in the allow list"
+            if not memo_allowed(H(q["memo"]), [H(m) for m in a0["memos"]]):
+                return what + " was accepted although the memo is not allowed"
+            if amt == SENT and l0 != SENT:
+                return what + ": the 'entire balance' sentinel amount was accepted against the bounded limit %d" % l0
+            if l0 != SENT:
+                spent[k3] = spent.get(k3, 0) + amt
+                if spent[k3] > l0:
+                    return what + ": accepted total %d exceeds the granted limit %d" % (spent[k3], l0)
+        if "moved" in o:
+            mv = int(o["moved"])
+            want = 0 if not o["ok"] else (int(q["spendable"]) if amt == SENT else amt)
+            if mv != want:
+                return what + ": %d left the granter's account, expected %d" % (mv, want)
+            if l0 != SENT:
+                moved_total[k3] = moved_total.get(k3, 0) + mv
+                if moved_total[k3] > l0:
+                    return what + ": tokens actually moved (%d) exceed the granted limit %d" % (moved_total[k3], l0)
+        # stored grant afterwards
+        st = o["state"]
+        if not o["ok"] and st != prev_state:
+            return what + " was rejected but the stored grant changed"
+        prev_state = st
+        have = {}
+        present = set()
+        for a in (st or []):
+            present.add((a["port"], a["chan"]))
+            if not a["limit"] or any(int(v) <= 0 for _, v in a["limit"]):
+                return what + ": an allocation with an exhausted (empty or zero) limit is still stored"
+            for d, v in a["limit"]:
+                have[(a["port"], a["chan"], d)] = int(v)
+        if st is not None and not st:
+            return what + ": a grant with no allocation left is still stored"
+        alive = set()
+        for k, l0k in limit0.items():
+            want = l0k if l0k == SENT else l0k - spent.get(k, 0)
+            if have.get(k, 0) != want:
+                return what + ": remaining limit for %s is %d, expected initial %d minus accepted %d" % ((S(k[0]), S(k[1]), S(k[2])), have.get(k, 0), l0k, spent.get(k, 0))
+            if want > 0:
+                alive.add(k[:2])
+        if present != alive:
+            return what + ": stored allocations %s, expected exactly the non-exhausted ones %s" % (sorted(present), sorted(alive))
+    return None
+
+
 KINDS = {
     "ident": dict(props=["C34"], enc=enc_ident, spec=spec_ident, exact=True),
     "extract": dict(props=["C34"], enc=enc_extract, spec=spec_extract, exact=True),
@@ -340,6 +481,9 @@ KINDS = {
     "ics20_send": dict(props=["C42"], enc=enc_ics20_send, spec=spec_ics20_send, exact=False),
     "rl_flow": dict(props=["C42"], enc=enc_rl_flow, spec=spec_rl_flow, exact=False),
     "roundtrip": dict(props=["C33"], enc=enc_roundtrip, spec=spec_roundtrip, exact=False),
+    "authz_valid": dict(props=["C36"], enc=enc_authz_valid, spec=spec_authz_valid, exact=True),
+    "authz_run": dict(props=["C36"], enc=enc_authz_run, spec=spec_authz_seq, exact=True),
+    "authz_exec": dict(props=["C36"], enc=enc_authz_exec, spec=spec_authz_seq, exact=True),
 }
 
 MONITORS = {"C34": [mon_escrow_distinct]}
